@@ -496,6 +496,25 @@ Definition spec_run (cls : N -> N) (s : str) (e : env) : sres :=
                end
   end.
 
+(* Portable mode (the shell's `portable` option): XCU 2.6.4 does not require the
+   increment and decrement operators, so a text in which `++` or `--` occurs is
+   rejected - wherever the operator stands, also in an operand that would not
+   be evaluated. *)
+Definition is_incdec (t : stok) : bool :=
+  match t with
+  | SOp OPlusPlus | SOp OMinusMinus => true
+  | _ => false
+  end.
+
+Definition spec_run_portable (cls : N -> N) (s : str) (e : env) : sres :=
+  match spec_lex cls s with
+  | None => SErr
+  | Some ts => match spec_parse ts with
+               | None => SErr
+               | Some x => if existsb is_incdec ts then SErr else spec_eval x e
+               end
+  end.
+
 (* ====================================================================== *)
 (* ORACLE                                                                 *)
 (* ====================================================================== *)
@@ -508,13 +527,13 @@ Inductive answer :=
 | AnsOther.        (* neither a number nor an error (only through the whole shell) *)
 
 (* 0 = accepted; otherwise the number of the violated clause *)
-Definition oracle (cls : N -> N) (s : str) (e : env) (a : answer) : N :=
+Definition oracle_for (spec : sres) (a : answer) : N :=
   match a with
   | AnsPanic => 6%N
   | AnsOther => 7%N
-  | AnsError => match spec_run cls s e with SErr => 0%N | SVal _ _ => 5%N end
+  | AnsError => match spec with SErr => 0%N | SVal _ _ => 5%N end
   | AnsValue z e' =>
-      match spec_run cls s e with
+      match spec with
       | SErr => 2%N
       | SVal z' e'' =>
           if negb (z =? z') then 3%N
@@ -522,3 +541,9 @@ Definition oracle (cls : N -> N) (s : str) (e : env) (a : answer) : N :=
           else 0%N
       end
   end.
+
+Definition oracle (cls : N -> N) (s : str) (e : env) (a : answer) : N :=
+  oracle_for (spec_run cls s e) a.
+
+Definition oracle_portable (cls : N -> N) (s : str) (e : env) (a : answer) : N :=
+  oracle_for (spec_run_portable cls s e) a.
